@@ -10,9 +10,11 @@ from ..gen import corpus, mutate
 
 ID = "C06"
 LEVEL = "exploration"
-RULE = ("exhaustive token sequences (every sequence of <= L symbols of a 45-symbol alphabet, L=3 quick / 4 thorough, "
-        "<= 5 over a 16-symbol alphabet on thorough) inserted in 6 contexts; random token-level mutants of accepted "
-        "programs; raw character noise; odd file names. A case is non-trivial when its text has >= 2 tokens; "
+RULE = ("exhaustive token sequences (every sequence of <= L symbols of a 45-symbol alphabet, L=3 quick / 4 thorough; of an "
+        "18-symbol type-name alphabet, L=4 quick / 5 thorough; of 5 symbols over a 16-symbol alphabet on thorough) inserted in 6 "
+        "contexts; every string of <= 3 (quick) / <= 4 (thorough) characters over the 21-character literal alphabet in 3 "
+        "contexts; random token-level mutants of accepted programs (corpus, zoo and model-generated translation units); raw "
+        "character noise; odd file names. A case is non-trivial when its text has >= 2 tokens; "
         "distinct = distinct input texts (exhaustive part distinct by construction, random part by hash).")
 ASSUMPTIONS = ["CPython 3.12 sys.monitoring PY_START events are deterministic for a given input",
                "nesting depth of generated inputs <= 25, so RecursionError is never legitimate here",
@@ -24,6 +26,9 @@ ALPHA45 = ["int", "T", "struct", "enum", "const", "_Atomic", "static", "typedef"
            "goto", "break", "(", ")", "[", "]", "{", "}", ";", ",", ":", "=", "*", "+", "++", ".", "->",
            "?", "...", "1", "1.5", "'a'", '"s"', 'L"s"', "x"]
 ALPHA16 = ["int", "T", "struct", "x", "(", ")", "[", "]", "{", "}", ";", ",", "*", "=", "1", ":"]
+# type-name oriented alphabet (atomic specifiers, abstract declarators, bit-fields)
+ALPHA18 = ["_Atomic", "(", ")", "int", "[", "]", "1", ";", "x", "*", "struct", "{", "}", "T", ",", "const", ":", "="]
+LIT_ALPHA = "0178 9afxXuUlL.ep+-'\"\\".replace(" ", "")
 CONTEXTS = [
     ("empty", "", ""),
     ("typedef", "typedef int T; ", ""),
@@ -41,6 +46,10 @@ def plan(tier, seed):
     maxlen = 3 if tier == "quick" else 4
     for i in range(nsh):
         specs.append({"name": f"seq45-{i}", "mode": "seq", "alpha": "45", "maxlen": maxlen, "shard": i, "nshards": nsh})
+    for i in range(nsh):
+        specs.append({"name": f"seq18-{i}", "mode": "seq", "alpha": "18", "maxlen": 4 if tier == "quick" else 5, "shard": i, "nshards": nsh})
+    for i in range(4):
+        specs.append({"name": f"lit-{i}", "mode": "lit", "maxlen": 3 if tier == "quick" else 4, "shard": i, "nshards": 4})
     if tier == "thorough":
         for i in range(8):
             specs.append({"name": f"seq16-{i}", "mode": "seq", "alpha": "16", "maxlen": 5, "minlen": 5, "shard": i, "nshards": 8})
@@ -107,7 +116,7 @@ def run_shard(spec):
 
     try:
         if spec["mode"] == "seq":
-            alpha = ALPHA45 if spec["alpha"] == "45" else ALPHA16
+            alpha = {"45": ALPHA45, "16": ALPHA16, "18": ALPHA18}[spec["alpha"]]
             A = len(alpha)
             parser = S.CParser()
             for L in range(spec.get("minlen", 1), spec["maxlen"] + 1):
@@ -127,9 +136,29 @@ def run_shard(spec):
                             res["nontrivial_distinct"] += 1
                         if len(res["samples"]) < 2 and idx % 9973 == spec["shard"]:
                             res["samples"].append({"input": text, "outcome": o[0] if o[0] != "perr" else o[1]})
+        elif spec["mode"] == "lit":
+            import itertools
+            parser = S.CParser()
+            idx = 0
+            for L in range(1, spec["maxlen"] + 1):
+                for tup in itertools.product(LIT_ALPHA, repeat=L):
+                    idx += 1
+                    if idx % spec["nshards"] != spec["shard"]:
+                        continue
+                    lit = "".join(tup)
+                    for text in ("int x = " + lit + ";", "void f(void){ " + lit + " ; }", "char *s = " + lit + " " + lit + ";"):
+                        o, v = judge(text, "f.c", steps, ntok=L + 12, parser=parser)
+                        record(o, v, text, "f.c", L + 12)
+                        res["nontrivial_distinct"] += 1
+            res["samples"].append({"input": "int x = 1uu;", "note": "every string over the literal alphabet in 3 contexts"})
         elif spec["mode"] == "mut":
             rnd = random.Random(spec["rseed"])
             pool = corpus.accepted_pool()
+            from ..gen import cases as _cases
+            for gi in range(40 if spec["n"] < 10000 else 400):
+                _c = _cases.build({"k": "tu", "seed": spec["rseed"] * 1000 + gi, "style": "single", "render": "min"})
+                if len(_c.text) < 4000:
+                    pool.append((f"gen{gi}", _c.text))
             small = [(n, mutate.units(t)) for n, t in pool if len(t) < 1500]
             large = [(n, mutate.units(t)) for n, t in pool if len(t) >= 1500]
             for i in range(spec["n"]):
@@ -175,7 +204,7 @@ def summarize(results, tier, seed):
     return {"monitors": {"exception_discipline": tot},
             "exhaustive_parts": [f"all sequences of <= {3 if tier == 'quick' else 4} symbols over {len(ALPHA45)} symbols x {len(CONTEXTS)} contexts"] +
                                 (["all sequences of 5 symbols over 16 symbols x 6 contexts"] if tier == "thorough" else []),
-            "alphabet": ALPHA45, "contexts": [c[0] for c in CONTEXTS]}
+            "alphabet": ALPHA45, "type_alphabet": ALPHA18, "literal_alphabet": LIT_ALPHA, "contexts": [c[0] for c in CONTEXTS]}
 
 
 def replay(rec):
